@@ -215,8 +215,28 @@ def build_rules(case):
             raise ValueError(r['t'])
     return out
 
+def _customise_builtin_lists(which):
+    """what another part of the program may do with ITS OWN copy of the built-in rules (the documented way to extend them):
+    insert a rule in front, change the scheme of the rule object, use the list.  The meaning of the names 'defaults' /
+    'unicode-xml' for every other encoder is not affected by that."""
+    from pylatexenc import latexencode as le
+    for name in ('defaults', 'unicode-xml'):
+        L = le.get_builtin_conversion_rules(name)
+        if 'i' in which:
+            L.insert(0, le.UnicodeToLatexConversionRule(le.RULE_DICT, {0x2014: '---', ord('a'): '\\A', 0xe9: 'E'}))
+        if 'p' in which:
+            L[-1].replacement_latex_protection = 'braces-all'
+        if 'c' in which:
+            del L[:]
+        try:
+            le.UnicodeToLatexEncoder(conversion_rules=L, unknown_char_warning=False).unicode_to_latex('caf\u00e9 \u2014 a')
+        except Exception:
+            pass
+
 def build_encoder(case, string_class=None):
     from pylatexenc import latexencode as le
+    if case.get('pre_mut'):
+        _customise_builtin_lists(case['pre_mut'])
     kw = dict(conversion_rules=build_rules(case), replacement_latex_protection=_prot_arg(case['prot']),
               unknown_char_policy=_pol_arg(case['pol']), non_ascii_only=case['nao'],
               unknown_char_warning=bool(case.get('warn', len(case.get('s', '')) % 3 == 0)))     # default flag on a third of the cases (logged to a NullHandler)
@@ -868,6 +888,15 @@ def cases(tier, rng):
         rules = [rand_rule(rng) for _ in range(rng.choice([0, 0, 1, 2]))]
         yield enc(s, rules, prot=rand_prot(rng), pol=rand_pol(rng), nao=(rng.random() < 0.15),
                   partial=({'keep': rng.choice(KEEPS)} if rng.random() < 0.7 else None))
+    # 6c. after another part of the program customised ITS copy of the built-in rule lists
+    for _ in range(300 if quick else 4000):
+        s = ''.join(rng.choice(['caf\u00e9', ' ', '\u2014', 'a', '\u03b1', '&', '\u4e7e', '%']) for _ in range(rng.randint(1, 5)))
+        d = enc(s, [rng.choice([B_DEF, B_XML])], prot=rng.choice(PROTS), pol=rng.choice(POLS), nao=rng.random() < 0.15,
+                partial=({'keep': rng.choice(KEEPS)} if rng.random() < 0.2 else None))
+        d['pre_mut'] = rng.choice(['i', 'p', 'ip', 'c'])
+        if d['rules'] == [B_DEF] and rng.random() < 0.3:
+            d['omit_rules'] = 'omit'
+        yield d
     # 7. homomorphism under per-character rules, on the implementation
     n7 = 1500 if quick else 15000
     for _ in range(n7):
